@@ -29,6 +29,10 @@ PROP = dict(
          "and outer read, the sender finishing at once / dropping its handle and allocating until its collector ran / staying "
          "alive, the receiver reading late: the inner channel delivers exactly what was written, in order. NESTED GRID (quick 55): "
          "the C08 container x leaf grid (depth <= 3) transported as a message, `heapsend` model requests. "
+         "SHARED CHILDLESS (quick 24): an object WITHOUT children at the write - empty array<int>, array<void>, "
+         "array<array<int>>, a struct of immediates - reachable along 2-3 paths of one message (struct fields, array elements, "
+         "tuple components, variant payloads, closure capture + field): the receiver mutates through one path and observes through "
+         "every other, then the sender does the same on its original; `heapsend` requests with datum labels. "
          "Hard regression runs of the two former D23 replays (the second in a child process). "
          "Every program runs in a child process (a host abort is reported with its program). spec_fail: per channel the identity tokens of the "
          "popped messages (the hook reports the written value's (bits,tag) carried by the message) are, position by position, a prefix "
